@@ -1,5 +1,5 @@
 (* C18 - Streaming APIs agree with buffered APIs and surface every I/O fault. *)
-Require Import Base Stream StreamProofs Container ContainerProofs.
+Require Import Base Stream StreamProofs Container ContainerProofs CarCutProofs.
 Local Open Scope N_scope.
 
 (* h_init / h_update / h_final: the streaming interface of sha256, with the premise that hashing chunk by
@@ -33,11 +33,21 @@ Theorem C18_stream_writer_equals_buffered : forall (st : Type) h_init h_update h
 Proof. exact write_stream_equals_buffered. Qed.
 Print Assumptions C18_stream_writer_equals_buffered.
 
-(* the one legitimately undetectable truncation: a CAR cut exactly between two blocks yields the blocks
-   before the cut (PARTIAL: that every other cut is an error is established for a cut inside a section's
-   payload by the framing theorem of C17 and, for all offsets, by the stream engine) *)
-Theorem C18_car_cut_between_blocks_partial : forall sha256 mh_sum (tok : Type) (unseal : str -> res tok),
+(* truncation of a CAR: every proper prefix of what the writer produced is refused, except a cut that falls
+   exactly between two sections, which reads as exactly the tokens of the blocks before the cut - the one
+   truncation the format cannot reveal (CARv1 has no length or trailer). No token that was not completely
+   present is ever returned. *)
+Theorem C18_truncated_car : forall sha256 mh_sum (tok : Type) (unseal : str -> res tok),
+  (forall d, length (sha256 d) = 32%nat) -> (forall d, mh_sum 18 32 d = Ok (sha256 d)) ->
+  forall blobs p q, Forall (block_ok sha256) blobs -> write_car sha256 blobs = p ++ q -> q <> [] ->
+  (exists k, (k < length blobs)%nat /\ p = write_car sha256 (firstn k blobs) /\
+             read_car sha256 mh_sum tok unseal p = add_tokens sha256 tok unseal (firstn k blobs) [])
+  \/ exists e, read_car sha256 mh_sum tok unseal p = Err e.
+Proof. exact read_car_cut. Qed.
+Print Assumptions C18_truncated_car.
+
+Theorem C18_untruncated_car : forall sha256 mh_sum (tok : Type) (unseal : str -> res tok),
   (forall d, length (sha256 d) = 32%nat) -> (forall d, mh_sum 18 32 d = Ok (sha256 d)) ->
   forall blobs, Forall (block_ok sha256) blobs -> car_blobs mh_sum (write_car sha256 blobs) = Ok blobs.
 Proof. exact car_blobs_written. Qed.
-Print Assumptions C18_car_cut_between_blocks_partial.
+Print Assumptions C18_untruncated_car.
